@@ -364,3 +364,79 @@ def is_total_len(e, seq: str) -> Optional[bool]:
             return body in (f"{a}+len({b})", f"len({b})+{a}") and len(e.args) == 3 and norm(e.args[2]) == "0"
         return None
     return None
+
+
+def linear_form(e, env=None, depth=0):
+    """integer expression -> {atom text: coefficient} (atom '' is the constant term); atoms are names, calls,
+    attribute reads ... anything that is not +, -, unary minus or multiplication by a literal.  Names bound in
+    `env` (name -> expr) are expanded first.  None when the expression is not an integer-linear combination."""
+    env = env or {}
+    if depth > 12:
+        return None
+    if isinstance(e, ast.Constant) and isinstance(e.value, int) and not isinstance(e.value, bool):
+        return {"": e.value} if e.value else {}
+    if isinstance(e, ast.Name) and e.id in env:
+        return linear_form(env[e.id], {k: v for k, v in env.items() if k != e.id}, depth + 1)
+    if isinstance(e, ast.UnaryOp) and isinstance(e.op, ast.USub):
+        f = linear_form(e.operand, env, depth + 1)
+        return None if f is None else {k: -v for k, v in f.items()}
+    if isinstance(e, ast.BinOp) and isinstance(e.op, (ast.Add, ast.Sub)):
+        a, b = linear_form(e.left, env, depth + 1), linear_form(e.right, env, depth + 1)
+        if a is None or b is None:
+            return None
+        out = dict(a)
+        sgn = 1 if isinstance(e.op, ast.Add) else -1
+        for k, v in b.items():
+            out[k] = out.get(k, 0) + sgn * v
+        return {k: v for k, v in out.items() if v}
+    if isinstance(e, ast.BinOp) and isinstance(e.op, ast.Mult):
+        for c, o in ((e.left, e.right), (e.right, e.left)):
+            if isinstance(c, ast.Constant) and isinstance(c.value, int):
+                f = linear_form(o, env, depth + 1)
+                return None if f is None else {k: v * c.value for k, v in f.items() if v * c.value}
+        return None
+    if isinstance(e, (ast.Name, ast.Call, ast.Attribute, ast.Subscript)):
+        return {norm(e).replace(" ", ""): 1}
+    return None
+
+
+def straight_line_env(block: Sequence[ast.stmt], upto: Optional[ast.stmt] = None):
+    """name -> defining expression for the plain single-target assignments among the top-level statements of block
+    that come before `upto` (all of them when upto is None); later definitions are expressed in terms of earlier ones"""
+    env = {}
+    for s_ in block:
+        if upto is not None and (s_ is upto or contains(s_, upto)):
+            break
+        if isinstance(s_, ast.Assign) and len(s_.targets) == 1 and isinstance(s_.targets[0], ast.Name):
+            env[s_.targets[0].id] = s_.value
+        elif isinstance(s_, ast.AugAssign) and isinstance(s_.target, ast.Name) and isinstance(s_.op, (ast.Add, ast.Sub)):
+            env[s_.target.id] = ast.BinOp(left=env.get(s_.target.id, ast.Name(id=s_.target.id + "@in", ctx=ast.Load())), op=s_.op, right=s_.value)
+    return env
+
+
+def dispatch_chain(body: Sequence[ast.stmt]):
+    """[(test, branch body)], default body for a dispatch written either as if/elif/.../else or as a sequence of
+    `if t: ...return/raise` statements followed by the default: both say `first test that holds decides`"""
+    from .core import stmt_terminates
+
+    out = []
+    stmts = [s for s in body if not (isinstance(s, ast.Expr) and isinstance(s.value, ast.Constant))]
+    i = 0
+    while i < len(stmts) and not isinstance(stmts[i], ast.If):
+        i += 1  # statements before the dispatch (bindings, logging) are not part of it
+    while i < len(stmts):
+        s = stmts[i]
+        if not isinstance(s, ast.If):
+            break
+        ch, els = if_chain(s)
+        out.extend(ch)
+        if els:
+            if all(stmt_terminates(b) for _, b in ch) and i + 1 < len(stmts) and stmt_terminates(els):
+                # a complete if/else whose every branch leaves: nothing follows
+                return out, els
+            return out, els
+        if not all(stmt_terminates(b) for _, b in ch):
+            # falls through: what follows is not an `else`
+            return out, None
+        i += 1
+    return out, stmts[i:]
